@@ -7,7 +7,7 @@
    is given by the scheduler theorems at the end. *)
 From RxModel Require Import Sched Timed.
 From RxSpec Require Import SchedSpec TimedSpec.
-From RxProofs Require SchedLaws TimedLaws BufferLaws RateLaws.
+From RxProofs Require SchedLaws TimedLaws BufferLaws RateLaws ThrottleExact.
 Open Scope N_scope.
 
 (* debounce and throttle (all three edges), for EVERY sequence of labels (input notifications,
@@ -49,6 +49,38 @@ Theorem C09_debounce_burst :
        (map (fun x => LSrc (Next x)) (vs ++ [v]) ++ [LRun (length vs); LAdv d; LRun (length vs)]))
     = [TOut d (Next v)].
 Proof. exact RateLaws.debounce_burst. Qed.
+
+(* throttle under an executor that runs as the timers fall due (it polls the window task when it is scheduled and when
+   its timer is due): the first item of each window on the leading edge, the last one on the trailing edge.  v opens a
+   window, vs arrive inside it, w arrives after it has closed. *)
+Theorem C09_throttle_leading_exact :
+  forall d v vs w, 0 < d ->
+    TimedLaws.touts (run_timed (TThrottle d ELeading)
+       (LSrc (Next v) :: LRun 0 :: ThrottleExact.feed vs ++ [LAdv d; LRun 0; LSrc (Next w); LRun 1]))
+    = [TOut 0 (Next v); TOut d (Next w)].
+Proof. exact ThrottleExact.throttle_leading_exact. Qed.
+
+Theorem C09_throttle_trailing_exact :
+  forall d v vs w, 0 < d ->
+    TimedLaws.touts (run_timed (TThrottle d ETailing)
+       (LSrc (Next v) :: LRun 0 :: ThrottleExact.feed vs ++ [LAdv d; LRun 0; LSrc (Next w); LRun 1]))
+    = [TOut d (Next (last vs v))].
+Proof. exact ThrottleExact.throttle_trailing_exact. Qed.
+
+Theorem C09_throttle_both_edges_exact :
+  forall d v vs w, 0 < d ->
+    TimedLaws.touts (run_timed (TThrottle d EAll)
+       (LSrc (Next v) :: LRun 0 :: ThrottleExact.feed vs ++ [LAdv d; LRun 0; LSrc (Next w); LRun 1]))
+    = TOut 0 (Next v) :: (match vs with [] => [] | _ :: _ => [TOut d (Next (last vs v))] end) ++ [TOut d (Next w)].
+Proof. exact ThrottleExact.throttle_all_exact. Qed.
+
+(* completion flushes the pending trailing item before it is forwarded *)
+Theorem C09_throttle_completion_flushes :
+  forall d e v vs, 0 < d -> e <> ELeading ->
+    TimedLaws.touts (run_timed (TThrottle d e) (LSrc (Next v) :: LRun 0 :: ThrottleExact.feed vs ++ [LSrc Done]))
+    = match e with ETailing => [] | _ => [TOut 0 (Next v)] end ++
+      match e, vs with EAll, [] => [] | _, _ => [TOut 0 (Next (last vs v))] end ++ [TOut 0 Done].
+Proof. exact ThrottleExact.throttle_done_flushes. Qed.
 
 (* buffer_with_time / buffer_with_count_and_time, for EVERY sequence of labels (input
    notifications, polls of any task at any time, clock advances, unsubscribe, queries, the
@@ -120,6 +152,22 @@ Check C09_debounce_burst : forall d vs v, 0 < d ->
     TimedLaws.touts (run_timed (TDebounce d)
        (map (fun x => LSrc (Next x)) (vs ++ [v]) ++ [LRun (length vs); LAdv d; LRun (length vs)]))
     = [TOut d (Next v)].
+Check C09_throttle_leading_exact : forall d v vs w, 0 < d ->
+    TimedLaws.touts (run_timed (TThrottle d ELeading)
+       (LSrc (Next v) :: LRun 0 :: ThrottleExact.feed vs ++ [LAdv d; LRun 0; LSrc (Next w); LRun 1]))
+    = [TOut 0 (Next v); TOut d (Next w)].
+Check C09_throttle_trailing_exact : forall d v vs w, 0 < d ->
+    TimedLaws.touts (run_timed (TThrottle d ETailing)
+       (LSrc (Next v) :: LRun 0 :: ThrottleExact.feed vs ++ [LAdv d; LRun 0; LSrc (Next w); LRun 1]))
+    = [TOut d (Next (last vs v))].
+Check C09_throttle_both_edges_exact : forall d v vs w, 0 < d ->
+    TimedLaws.touts (run_timed (TThrottle d EAll)
+       (LSrc (Next v) :: LRun 0 :: ThrottleExact.feed vs ++ [LAdv d; LRun 0; LSrc (Next w); LRun 1]))
+    = TOut 0 (Next v) :: (match vs with [] => [] | _ :: _ => [TOut d (Next (last vs v))] end) ++ [TOut d (Next w)].
+Check C09_throttle_completion_flushes : forall d e v vs, 0 < d -> e <> ELeading ->
+    TimedLaws.touts (run_timed (TThrottle d e) (LSrc (Next v) :: LRun 0 :: ThrottleExact.feed vs ++ [LSrc Done]))
+    = match e with ETailing => [] | _ => [TOut 0 (Next v)] end ++
+      match e, vs with EAll, [] => [] | _, _ => [TOut 0 (Next (last vs v))] end ++ [TOut 0 Done].
 Check C09_buffer_with_time : forall d ls, buffers_ok None ls (run_timed (TBufferTime d) ls) = true.
 Check C09_buffer_with_count_and_time : forall n d ls, buffers_ok (Some n) ls (run_timed (TBufferCountTime n d) ls) = true.
 Check C09_buffer_windows : forall d vss,
@@ -133,6 +181,10 @@ Print Assumptions C09_debounce_subsequence.
 Print Assumptions C09_throttle_subsequence.
 Print Assumptions C09_debounce_spaced.
 Print Assumptions C09_debounce_burst.
+Print Assumptions C09_throttle_leading_exact.
+Print Assumptions C09_throttle_trailing_exact.
+Print Assumptions C09_throttle_both_edges_exact.
+Print Assumptions C09_throttle_completion_flushes.
 Print Assumptions C09_buffer_with_time.
 Print Assumptions C09_buffer_with_count_and_time.
 Print Assumptions C09_buffer_windows.
